@@ -53,7 +53,7 @@ def run(ctx):
     w.max_job_ticks = (3000, 20000)[cfg.draw(2)]
     user = users[0]
     holder = {}
-    st = {'cancels': 0, 'answered_after_cancel': 0, 'done': False}
+    st = {'cancels': 0, 'answered_after_cancel': 0, 'done': False, 'commits': []}
 
     async def main(loop):
         await w.start(loop)
@@ -103,6 +103,13 @@ def run(ctx):
         await b.submit(disable_progress_bar=True)
         bid = b.id
         log.add('base', 'submitted', bid, len(groups))
+        if s.draw(2):
+            # an unrelated batch of the same user with several committed updates (update numbers repeat across batches)
+            b2 = c.create_batch(attributes={'name': 'other'})
+            for _u in range(s.rint(2, 4)):
+                b2.create_job('ubuntu:22.04', ['true'], resources={'cpu': '0.25', 'memory': 'standard', 'storage': '1Gi'})
+                await b2.submit(disable_progress_bar=True)
+            ctx.probe('second_batch_with_updates')
         # faults start once the base batch exists (a re-sent create-fast is answered 400 by this front end)
         if plan.draw(2):
             w.net.rates.update({k: 0.05 for k in ('duplicate', 'drop_response', 'slow_request') if plan.draw(2)})
@@ -110,14 +117,17 @@ def run(ctx):
             w.db_fault_rates = {k: v for k, v in {'deadlock': 0.004, 'lost_conn_after': 0.003, 'stall': 0.01,
                                                   'lost_conn_after_commit': 0.004}.items() if plan.draw(2)}
 
-        def committed_groups():
+        targets = [bid]  # batches the adders and the canceller work on (fresh batches are appended)
+
+        def committed_groups(tb=None):
+            tb = tb or bid
             rows = w.sql("SELECT job_groups.job_group_id AS g, level FROM job_groups "
                          "LEFT JOIN batch_updates ON batch_updates.batch_id = job_groups.batch_id AND "
                          "batch_updates.update_id = job_groups.update_id "
                          "INNER JOIN job_group_self_and_ancestors a ON a.batch_id = job_groups.batch_id AND "
                          "a.job_group_id = job_groups.job_group_id AND a.ancestor_id = 0 "
                          "WHERE job_groups.batch_id = %s AND (job_groups.update_id IS NULL OR batch_updates.committed) "
-                         "ORDER BY job_groups.job_group_id", (bid,))
+                         "ORDER BY job_groups.job_group_id", (tb,))
             return [(r['g'], r['level']) for r in rows]
 
         async def adder(idx):
@@ -126,13 +136,28 @@ def run(ctx):
                 await asyncio.sleep(a.ticks(3000))
                 n_groups = a.rint(0, 3)
                 n_jobs = a.rint(0 if n_groups else 1, 4)
-                stt, js = await call('POST', f'/api/v1alpha/batches/{bid}/updates/create',
-                                     {'n_jobs': n_jobs, 'n_job_groups': n_groups, 'token': f'a{idx}u{ui}'})
-                log.add(f'adder{idx}', 'update_create', stt)
-                if stt != 200:
-                    continue
+                tb = bid
+                if ui == 0 and a.draw(3) == 0:
+                    # a batch of its own, built the slow way: update 1 is opened by batches/create and stays open while
+                    # its job groups and jobs arrive bunch by bunch (first-update jobs are inserted Ready / counted
+                    # through the staging tables, unlike jobs of later updates)
+                    stt, js = await call('POST', '/api/v1alpha/batches/create',
+                                         {'billing_project': 'bp1', 'n_jobs': n_jobs, 'n_job_groups': n_groups,
+                                          'token': f'fresh{idx}', 'attributes': {'name': f'fresh{idx}'}})
+                    log.add(f'adder{idx}', 'batch_create', stt)
+                    if stt != 200 or js.get('update_id') is None:
+                        continue
+                    tb = js['id']
+                    targets.append(tb)
+                    ctx.probe('fresh_batch_with_open_first_update')
+                else:
+                    stt, js = await call('POST', f'/api/v1alpha/batches/{tb}/updates/create',
+                                         {'n_jobs': n_jobs, 'n_job_groups': n_groups, 'token': f'a{idx}u{ui}'})
+                    log.add(f'adder{idx}', 'update_create', stt)
+                    if stt != 200:
+                        continue
                 uid = js['update_id']
-                known = committed_groups()
+                known = committed_groups(tb)
                 inup = []  # (in-update id, depth) created so far by this update
                 gspecs = []
                 for gi in range(1, n_groups + 1):
@@ -154,7 +179,7 @@ def run(ctx):
                 i = 0
                 while i < len(gspecs) and ok:
                     k = a.rint(1, len(gspecs) - i)
-                    stt, _ = await call('POST', f'/api/v1alpha/batches/{bid}/updates/{uid}/job-groups/create',
+                    stt, _ = await call('POST', f'/api/v1alpha/batches/{tb}/updates/{uid}/job-groups/create',
                                         gspecs[i:i + k])
                     log.add(f'adder{idx}', 'groups_create', uid, i + 1, k, stt)
                     ok = stt == 200
@@ -167,11 +192,11 @@ def run(ctx):
                             want = spec['absolute_parent_id'] if 'absolute_parent_id' in spec else \
                                 start_g + spec['in_update_parent_id'] - 1
                             got = w.sql('SELECT ancestor_id FROM job_group_self_and_ancestors WHERE batch_id = %s AND '
-                                        'job_group_id = %s AND level = 1', (bid, gid))
+                                        'job_group_id = %s AND level = 1', (tb, gid))
                             if not got or got[0]['ancestor_id'] != want:
                                 ctx.probe('group_parent_mismatch')
                                 raise Violation('C06', 'group_tree', 'C06/job_group_attached_to_wrong_parent',
-                                                f'job group {(bid, gid)} (update {uid}, in-update id '
+                                                f'job group {(tb, gid)} (update {uid}, in-update id '
                                                 f'{spec["job_group_id"]}) was requested beneath group {want} but is '
                                                 f'recorded beneath {[r["ancestor_id"] for r in got]}')
                             ctx.probe('group_parent_checked')
@@ -185,35 +210,70 @@ def run(ctx):
                         else:
                             grp = ('absolute', known[a.draw(len(known))][0])
                         par = [a.rint(1, ji - 1)] if ji > 1 and a.draw(2) else []
-                        jspecs.append(job_spec(ji, grp, par, always_run=a.draw(6) == 0))
+                        sp = job_spec(ji, grp, par, always_run=a.draw(6) == 0)
+                        if a.draw(4) == 0:
+                            # a dependency on a job of an EARLIER update, named absolutely or (legal for the validator)
+                            # by a non-positive in-update id; the earlier update may be committed, still open (another
+                            # adder's), or abandoned -- the front end has to tell them apart
+                            # any id below this update's range: a job that exists, or an id that another open update
+                            # has reserved but not uploaded yet
+                            if js['start_job_id'] > 1:
+                                pj = a.rint(1, js['start_job_id'] - 1)
+                                if a.draw(3) == 0:
+                                    sp['in_update_parent_ids'] = sp['in_update_parent_ids'] + [pj - js['start_job_id'] + 1]
+                                    ctx.probe('earlier_parent_as_nonpositive_in_update_id')
+                                else:
+                                    sp['absolute_parent_ids'] = [pj]
+                                ctx.probe('parent_in_earlier_update')
+                        jspecs.append(sp)
                     i = 0
                     while i < len(jspecs) and ok:
                         k = a.rint(1, len(jspecs) - i)
-                        stt, _ = await call('POST', f'/api/v1alpha/batches/{bid}/updates/{uid}/jobs/create',
+                        stt, _ = await call('POST', f'/api/v1alpha/batches/{tb}/updates/{uid}/jobs/create',
                                             jspecs[i:i + k])
                         log.add(f'adder{idx}', 'jobs_create', uid, i + 1, k, stt)
                         ok = stt == 200
                         i += k
                         await asyncio.sleep(a.ticks(2500))
+                if ok and a.draw(5) == 4:
+                    # the client walks away: the update stays open for the rest of the run
+                    ctx.probe('update_abandoned')
+                    log.add(f'adder{idx}', 'abandon', uid)
+                    continue
                 if ok:
-                    stt, _ = await call('PATCH', f'/api/v1alpha/batches/{bid}/updates/{uid}/commit')
+                    if a.draw(3) == 0:
+                        # a slow client: other adders' updates are created, filled and committed meanwhile
+                        await asyncio.sleep(a.rint(2, 20))
+                    stt, _ = await call('PATCH', f'/api/v1alpha/batches/{tb}/updates/{uid}/commit')
                     log.add(f'adder{idx}', 'commit', uid, stt)
+                    if stt == 200:
+                        st['commits'].append(uid)
+                        if any(u > uid for u in st['commits']):
+                            ctx.probe('update_committed_after_a_later_one')
 
         async def canceller():
             k = ctx.stream('canceller')
-            for _ in range(k.rint(1, 4)):
+            for _ in range(k.rint(1, 6)):
                 await asyncio.sleep(k.ticks(5000))
-                known = committed_groups()
+                cb = targets[k.draw(len(targets))]
+                known = committed_groups(cb)
                 g = known[k.draw(len(known))][0]
+                if k.draw(2) == 1:
+                    # a job group of a still-open update, when there is one (the API must refuse to cancel it)
+                    allg = w.sql('SELECT job_group_id AS g FROM job_groups WHERE batch_id = %s ORDER BY job_group_id', (cb,))
+                    opened = [r['g'] for r in allg if r['g'] not in [x for x, _d in known]]
+                    if opened:
+                        g = opened[k.draw(len(opened))]
+                        ctx.probe('cancel_of_uncommitted_group_requested')
                 if g == 0 and k.draw(2):
-                    stt, _ = await call('PATCH', f'/api/v1alpha/batches/{bid}/cancel')
+                    stt, _ = await call('PATCH', f'/api/v1alpha/batches/{cb}/cancel')
                 else:
-                    stt, _ = await call('PATCH', f'/api/v1alpha/batches/{bid}/job-groups/{g}/cancel')
+                    stt, _ = await call('PATCH', f'/api/v1alpha/batches/{cb}/job-groups/{g}/cancel')
                 log.add('canceller', 'cancel', g, stt)
                 if stt == 200:
                     st['cancels'] += 1
 
-        tasks = [asyncio.create_task(adder(i), name=f'adder{i}') for i in range(cfg.rint(1, 2))]
+        tasks = [asyncio.create_task(adder(i), name=f'adder{i}') for i in range(cfg.rint(1, 3))]
         tasks.append(asyncio.create_task(canceller(), name='canceller'))
         done, pending = await asyncio.wait(tasks, timeout=600)
         for t in pending:
